@@ -206,8 +206,9 @@ def main():
         "evaluations": len(procs) + len(traces),
         "distinct_nontrivial": len({r.get("script") for r in procs}),
         "rule": "process trees generated to depth 1-3 (sleep leaves, background groups with/without wait, pipelines, subshells, sequences, trap '' INT at any node, "
-                "children redirected away from the output pipes, separate bash processes), run below bash, below the interpreter (with its own background command and "
-                "pipeline), in a two-task job, and behind an earlier script line that left a process; cancel after the tree settled or 0-60 ms after the first process; "
+                "children redirected away from the output pipes, separate bash processes, a top-level shell that traps the interrupt and exits normally), run below bash, below the "
+                "interpreter (with its own background command and pipeline, or as a background command followed by a last command that exits by itself on the interrupt), "
+                "in a two-task job, and behind an earlier script line that left a process; cancel after the tree settled or 0-60 ms after the first process; "
                 "survivors scanned at the report, 100 ms later and after timeout + 300 ms; bystander job's processes counted",
         "runs": len(procs), "pipelines": shapes, "tree_nodes_max": max([count_nodes(r["tree"]) for r in procs] or [0]),
         "processes_before_cancel_max": max([r.get("procs_before", 0) for r in procs] or [0]),
